@@ -224,7 +224,7 @@ func genIntArith(g *G) string {
 		types = append(types, pick(g, intTypes))
 	}
 	vars := g.declVars(types)
-	wrapAll := g.pct(70)
+	wrapAll := g.pct(85)
 	n := 3 + g.n(4)
 	for i := 0; i < n; i++ {
 		e, c := g.intExpr(t, 1+g.n(4), vars)
@@ -653,6 +653,9 @@ func genConstFold(g *G) string {
 	if g.pct(25) {
 		return genConstFoldFloat(g)
 	}
+	if g.pct(15) {
+		return genIota(g)
+	}
 	t := pick(g, intTypes)
 	typed := g.coin()
 	n := 2 + g.n(3)
@@ -735,4 +738,36 @@ func genConstFoldFloat(g *G) string {
 	g.P("var w8 uint8 = 510 / 2.0")
 	g.P("println(\"whole \" + itoa(int64(w)) + \" \" + utoa(uint64(w8)))")
 	return "const-fold:float:" + ft.Name
+}
+
+// genIota: const blocks with iota, implicit repetition, skips and typed constants.
+func genIota(g *G) string {
+	t := pick(g, intTypes)
+	k := 1 + g.n(3)
+	g.P("const (")
+	g.P("\ta0 = iota * %d", 1+g.n(9))
+	g.P("\ta1")
+	g.P("\t_")
+	g.P("\ta3")
+	g.P("\tb0, b1 = iota + %d, iota << %d", g.n(5), k)
+	g.P("\tb2, b3")
+	g.P(")")
+	g.P("const (")
+	g.P("\tf0 %s = 1 << iota", t.Name)
+	g.P("\tf1")
+	g.P("\tf2")
+	g.P("\ts0 = \"s\"")
+	g.P("\tn4 = iota")
+	g.P("\tf5 %s = f2 | n4", t.Name)
+	g.P(")")
+	g.P("const single = iota + %d", g.n(9))
+	g.P("println(\"iota \" + itoa(a0) + itoa(a1) + itoa(a3) + \" \" + itoa(b0) + itoa(b1) + itoa(b2) + itoa(b3) + \" \" + %s + %s + %s + s0 + itoa(n4) + %s + itoa(single))", t.show("f0"), t.show("f1"), t.show("f2"), t.show("f5"))
+	g.P("var v %s = f2", t.Name)
+	g.P("switch v {")
+	g.P("case f0, f1:")
+	g.P("\tprintln(\"low\")")
+	g.P("case f2:")
+	g.P("\tprintln(\"f2\")")
+	g.P("}")
+	return "const-fold:iota:" + t.Name
 }
